@@ -381,6 +381,9 @@ Fixpoint eval (vars : list (string * value)) (doc : value) (ign : bool) (e : val
                 match eval vars doc ign arg with
                 | EV (VArr vs) => match group_fold k vs with Ok v => EV v | Err er => EE er end
                 | EV VNull => if (k =? "$first") || (k =? "$last") then EV VNull else EE EType
+                | EV (VInt _) | EV (VDbl _) | EV (VBool _) | EV (VDate _ _) | EV (VOid _) =>
+                    (* iterating a number / date / ObjectId: TypeError; $first/$last index it *)
+                    if (k =? "$first") || (k =? "$last") then EE EUnmodelled else EE EType
                 | EV _ => EE EUnmodelled
                 | EMiss => EMiss
                 | EE er => EE er
